@@ -24,6 +24,22 @@ META = {
 }
 
 
+class SameHash:
+    """A well-behaved hashable (proper __eq__) whose instances all share one hash value."""
+
+    def __init__(self, k):
+        self.k = k
+
+    def __hash__(self):
+        return 7
+
+    def __eq__(self, other):
+        return isinstance(other, SameHash) and other.k == self.k
+
+    def __repr__(self):
+        return f"SameHash({self.k})"
+
+
 def lab(scheme, i):
     if scheme == 0:
         return i
@@ -34,13 +50,16 @@ def lab(scheme, i):
     if scheme == 4:  # falsy / singleton hashables are legal node labels too ("any node labels")
         exotic = [None, "", (), 0, frozenset(), 0.5, "None", -1, (None,), "0", b"", 7]
         return exotic[i] if i < len(exotic) else ("x", i)
+    if scheme == 5:  # distinct labels with EQUAL hashes: hash(-1) == hash(-2) in CPython; SameHash collides by design
+        coll = [-1, -2, (-1, 0), (-2, 0), SameHash(0), SameHash(1), (0, -1), (0, -2), SameHash(2), 2**70, -(2**70)]
+        return coll[i] if i < len(coll) else SameHash(i)
     return [i, f"n{i}", (i, "x")][i % 3]
 
 
 @st.composite
 def graphs(draw, tier="quick"):
     nmax = 12 if tier == "thorough" else 9
-    scheme = draw(st.integers(0, 4))
+    scheme = draw(st.integers(0, 5))
     family = draw(st.sampled_from(["uniform", "trap", "trap", "uniform-dense"]))
     cap = st.integers(0, 5)
     if family.startswith("uniform"):
